@@ -555,7 +555,7 @@ func checkARPProbeClass(c *Ctx) {
 			for _, d := range dnf {
 				okPath := false
 				for _, t := range strings.Split(d, " && ") {
-					if regexp.MustCompile(`^\(\(packet\.ARP\)\.SrcIP\(.*\)==IPv4zero\)$`).MatchString(t) {
+					if regexp.MustCompile(`^\(\(packet\.ARP\)\.SrcIP\(.*\)==IPv4zero\)$`).MatchString(t) || regexp.MustCompile(`^\(IPv4zero==\(packet\.ARP\)\.SrcIP\(.*\)\)$`).MatchString(t) {
 						okPath = true
 					}
 				}
